@@ -107,9 +107,14 @@ def _extract_omega_delta_phi(
     noisy_samples: SequenceSamples,
     qubit_ids: tuple[str, ...],
     target_times: Sequence[float],
+    keep_unaddressed: bool = False,
 ) -> tuple[torch.Tensor, torch.Tensor, torch.Tensor]:
     """
     Extract per-qubit laser parameters (Ω, δ, phase) from Pulser samples.
+
+    Qubits that no channel addresses have no samples. By default they are
+    filtered out; with `keep_unaddressed` they keep a column of zeros, so that
+    the columns line up with `qubit_ids`.
 
     Pulser stores samples on the discrete grid t = 0, 1, ..., T-1
     (with dt = 1.0), i.e. it does not provide values exactly
@@ -137,7 +142,9 @@ def _extract_omega_delta_phi(
         raise ValueError(
             "Only `ground-rydberg` and `mw_global`(XY) channels are supported."
         )
-    qubit_ids_filtered = [qid for qid in qubit_ids if qid in locals_a_d_p]
+    qubit_ids_filtered = [
+        qid for qid in qubit_ids if keep_unaddressed or qid in locals_a_d_p
+    ]
 
     target_t = torch.as_tensor(target_times, dtype=torch.float64)
     t_mid = 0.5 * (target_t[:-1] + target_t[1:])
@@ -157,6 +164,8 @@ def _extract_omega_delta_phi(
     }
     for name, data_mid in laser_by_data.items():
         for q_pos, q_id in enumerate(qubit_ids_filtered):
+            if q_id not in locals_a_d_p:
+                continue  # not addressed by any channel: zero drive
             signal = torch.as_tensor(locals_a_d_p[q_id][name])
             if torch.is_complex(signal) and not torch.allclose(
                 signal.imag, torch.zeros_like(signal.imag)
@@ -328,8 +337,12 @@ class PulserData:
                 masked_interaction_matrix[target] = 0.0
                 masked_interaction_matrix[:, target] = 0.0
 
+            # one column per atom of the register, also for atoms no channel addresses
             omega, delta, phi = _extract_omega_delta_phi(
-                samples.samples, self.qubit_ids, self.target_times
+                samples.samples,
+                self.qubit_ids,
+                self.target_times,
+                keep_unaddressed=True,
             )
 
             interaction_matrix = _InteractionMatrixCallable(
